@@ -75,3 +75,32 @@ Proof.
   destruct (setup_ts_rates J J ax ax ax ax n dt) as [[ss ii] si].
   destruct H as (H1 & H2 & H3). repeat split; try apply H1; try apply H2; apply H3; apply Rle_refl.
 Qed.
+
+(* ---- the free function hom_two_source_visibilities(&a, &b, ..) when the two sources are structurally equal *)
+Lemma ts_time_delays_same a :
+  ts_time_delays a a = (0, 0, idl_time a - sig_time a + (idl_wp a - sig_wp a) / light_c).
+Proof.
+  unfold ts_time_delays. apply injective_projections; cbn [fst snd]; [apply injective_projections; cbn [fst snd]|]; unfold Rdiv; ring.
+Qed.
+
+(* whichever way the test `spdc1 == spdc2` comes out, equal sources give zero ss / ii delays and the self-vs-self result *)
+Theorem visibilities_branch_independent J a ls1 li1 ls2 li2 n :
+  fst (fst (setup_ts_visibilities false J J a a ls1 li1 ls2 li2 n)) = fst (fst (setup_ts_visibilities true J J a a ls1 li1 ls2 li2 n)) /\
+  snd (fst (setup_ts_visibilities false J J a a ls1 li1 ls2 li2 n)) = snd (fst (setup_ts_visibilities true J J a a ls1 li1 ls2 li2 n)).
+Proof. unfold setup_ts_visibilities. cbv zeta. rewrite ts_time_delays_same. cbn [fst snd]. split; reflexivity. Qed.
+
+Theorem free_function_identical same J a ls li n :
+  let F := tabulate J (axes_grid ls li n) in
+  jsi_norm ROps (n * n) F <> 0 ->
+  fst (fst (setup_ts_visibilities same J J a a ls li ls li n)) = (0, purity_s ROps n (Fmat n F)) /\
+  snd (fst (setup_ts_visibilities same J J a a ls li ls li n)) = (0, purity_i ROps n (Fmat n F)).
+Proof.
+  intros F HN.
+  assert (T : fst (fst (setup_ts_visibilities true J J a a ls li ls li n)) = (0, purity_s ROps n (Fmat n F)) /\
+              snd (fst (setup_ts_visibilities true J J a a ls li ls li n)) = (0, purity_i ROps n (Fmat n F))).
+  { destruct (setup_identical_visibilities J ls li n HN) as (V1 & V2 & _).
+    unfold setup_ts_visibilities_identical in V1, V2. unfold setup_ts_visibilities. cbv zeta. cbn [fst snd].
+    destruct (setup_ts_rates J J ls li ls li n 0) as [[ss ii] si]. cbn [fst snd] in *. fold F in V1, V2. rewrite V1, V2. split; reflexivity. }
+  destruct same; [exact T|].
+  destruct (visibilities_branch_independent J a ls li ls li n) as [E1 E2]. rewrite E1, E2. exact T.
+Qed.
